@@ -61,6 +61,12 @@ func checkC20(c *Ctx) {
 	c.Rule("C20-R10", "everything a ViewPort paints goes through its parent's SetContent at translated coordinates: the only other thing it asks its parent is its size (a parent Fill or Clear paints the parent's whole window, whatever the port's origin or the parent's scroll offset)")
 	c.Expect("C20-R10", 1)
 	checkViewPortPaintsThroughSetContent(c, p, "C20-R10")
+	c.Rule("C20-R11", "scrolling never leaves the content limits, whichever call set them: SetContentSize records limits and the locked flag on every path; it returns early only where each parameter is known to equal what is stored")
+	c.Expect("C20-R11", 3)
+	checkSetterStoresParams(c, p, "C20-R11", "views:(*ViewPort).SetContentSize", "views.ViewPort")
+	c.Rule("C20-R12", "the surplus is distributed in proportion to the fill factors: what is stored into a cell's pad is computed from that cell's fill factor (or is zero, or one leftover cell more), unless stored under a test that fill factors are equal")
+	c.Expect("C20-R12", 3)
+	checkPadDerivesFromFill(c, p, "C20-R12")
 	bl := methods(blOwner)
 	if len(vp) < 15 || len(bl) < 10 {
 		c.Undecided("C20-R1", "methods", "-", fmt.Sprintf("found %d ViewPort and %d BoxLayout methods", len(vp), len(bl)))
